@@ -189,7 +189,7 @@ class AsyncHarness:
         return res
 
 
-def run_history(h: "AsyncHarness", history, wd=None, on_boundary=None, eps0=0, fixed_gs_eps=None):
+def run_history(h: "AsyncHarness", history, wd=None, on_boundary=None, eps0=0, fixed_gs_eps=None, dirty=False):
     """Execute a call history on the harness' AsyncGraph.
 
     history: list of calls: "reset", "step", "step!" (override with own result), "run", "stop".
@@ -213,6 +213,15 @@ def run_history(h: "AsyncHarness", history, wd=None, on_boundary=None, eps0=0, f
         probes.LOG.clear()
         gs_eps = eps if fixed_gs_eps is None else fixed_gs_eps
         h.gs0 = h.gs0.replace(eps=onp.int32(gs_eps))
+        if dirty and eps % 2 == 1:
+            # a user-supplied initial graph state need not carry seq 0 / ts 0 (e.g. the final state of an earlier episode);
+            # the runtime stamps every step with its own tick and start time
+            from flax.core import FrozenDict
+            h.gs0 = h.gs0.replace(seq=FrozenDict({k: onp.int32(7 + 3 * i) for i, k in enumerate(sorted(h.nodes))}),
+                                  ts=FrozenDict({k: onp.float32(11.0 + i) for i, k in enumerate(sorted(h.nodes))}))
+        elif dirty:
+            from flax.core import FrozenDict
+            h.gs0 = h.gs0.replace(seq=FrozenDict({k: onp.int32(0) for k in h.nodes}), ts=FrozenDict({k: onp.float32(0.0) for k in h.nodes}))
         cur = dict(style=style, nsteps=0, override=False, sss=[], calls=[], eps=eps, gs_eps=gs_eps, noexec_ticks=[])
 
     for call in history:
